@@ -609,7 +609,9 @@ fn lex_source_into_buffer<'source: 'tokens, 'tokens: 'buffer, 'buffer>(
 				{
 					if let Some(digit) = parse_decimal_digit(y)
 					{
-						value = match value.checked_mul(10)
+						value = match value
+							.checked_mul(10)
+							.and_then(|value| value.checked_add(u128::from(digit)))
 						{
 							Some(value) => value,
 							None =>
@@ -618,7 +620,6 @@ fn lex_source_into_buffer<'source: 'tokens, 'tokens: 'buffer, 'buffer>(
 								0
 							}
 						};
-						value += u128::from(digit);
 
 						iter.next();
 						location.end += 1;
